@@ -299,6 +299,28 @@ func genC16(o *hx.Out, tier string) {
 	r := hx.NewRand(16)
 	ds := c16Dialects(o)
 
+	// (3) the 30 s rule in real time, started first and run beside the rest: entries younger than
+	// 30 s survive the cleaner's tick (no second burst), older ones are requested again.
+	// quick: 34 s, one tick; thorough: 63 s, two ticks (a cleaned entry is requested again).
+	type timedRes struct{ impl, toks string }
+	timedDone := make(chan timedRes, 1)
+	go func() {
+		s := time.Second
+		ops := []srOp{
+			{'H', 0, 1, 1, 3, 2 * s}, {'H', 1, 2, 1, 3, 5 * s}, {'H', 0, 3, 1, 3, 12 * s}, {'H', 0, 1, 1, 3, 12 * s},
+			{'H', 0, 1, 1, 3, 33500 * time.Millisecond}, {'H', 1, 2, 1, 3, 33500 * time.Millisecond}, {'H', 0, 3, 1, 3, 33500 * time.Millisecond},
+		}
+		if tier == "thorough" {
+			ops = []srOp{
+				{'H', 0, 1, 1, 3, 2 * s}, {'H', 1, 2, 1, 3, 5 * s}, {'H', 0, 3, 1, 3, 12 * s}, {'H', 0, 1, 1, 3, 12 * s},
+				{'H', 1, 2, 1, 3, 26 * s}, {'H', 0, 1, 1, 3, 36 * s}, {'H', 1, 2, 1, 3, 36 * s}, {'H', 0, 3, 1, 3, 36 * s},
+				{'H', 0, 3, 1, 3, 63 * s}, {'H', 0, 1, 1, 3, 63 * s},
+			}
+		}
+		impl, toks := streamRun(hx.NewRand(1616), &ds[1], true, 4, 2, ops, true)
+		timedDone <- timedRes{impl, toks}
+	}()
+
 	// (1) heartbeats
 	type hbc struct {
 		d       int // -1: no dialect
@@ -381,15 +403,6 @@ func genC16(o *hx.Out, tier string) {
 		o.Add("stream request history", impl, "srobs", b2s(enable), cd.name, u(uint64(freq)), u(uint64(k)), toks)
 	}
 
-	// (3) thorough only: the 30 s rule in real time (cleaner tick at 30 s, and the >= 30 s path)
-	if tier == "thorough" {
-		s := time.Second
-		ops := []srOp{
-			{'H', 0, 1, 1, 3, 2 * s}, {'H', 1, 2, 1, 3, 5 * s}, {'H', 0, 3, 1, 3, 12 * s}, {'H', 0, 1, 1, 3, 12 * s},
-			{'H', 1, 2, 1, 3, 26 * s}, {'H', 0, 1, 1, 3, 36 * s}, {'H', 1, 2, 1, 3, 36 * s}, {'H', 0, 3, 1, 3, 36 * s},
-			{'H', 0, 3, 1, 3, 63 * s}, {'H', 0, 1, 1, 3, 63 * s},
-		}
-		impl, toks := streamRun(r, &ds[1], true, 4, 2, ops, true)
-		o.Add("stream request 30 s rule (real time)", impl, "srobs", "1", ds[1].name, "4", "2", toks)
-	}
+	tr := <-timedDone
+	o.Add("stream request 30 s rule (real time)", tr.impl, "srobs", "1", ds[1].name, "4", "2", tr.toks)
 }
